@@ -1,22 +1,30 @@
 package index
 
 import (
+	"fmt"
 	"log"
 	"os"
-
-	"github.com/spq/pkappa2/internal/tools"
+	"path/filepath"
+	"strings"
 )
 
 func Merge(indexDir string, indexes []*Reader) ([]*Reader, error) {
 	ws := []*Writer{}
 	rs := []*Reader{}
+	// index files are stacked by name when the service starts: a merge result
+	// has to sort directly after its newest input, not after index files that
+	// were created by imports while the merge was being set up or running
+	newestInput := ""
+	if len(indexes) != 0 {
+		newestInput = strings.TrimSuffix(filepath.Base(indexes[len(indexes)-1].filename), ".idx")
+	}
 	err := func() error {
 		for idxIdx := len(indexes); idxIdx > 0; {
 			idxIdx--
 			idx := indexes[idxIdx]
 			for wIdx := 0; wIdx <= len(ws); wIdx++ {
 				if wIdx == len(ws) {
-					w, err := NewWriter(tools.MakeFilename(indexDir, "idx"))
+					w, err := NewWriter(filepath.Join(indexDir, fmt.Sprintf("%s.m%d.idx", newestInput, wIdx)))
 					if err != nil {
 						return err
 					}
